@@ -92,7 +92,7 @@ func (x *Exec) contentSort(T types.Type) string {
 func (x *Exec) mapSort(m *types.Map) string {
 	ks, vs := x.c.sortOf(m.Key()), x.c.sortOf(m.Elem())
 	name := "GoMap_" + sortMangle(ks) + "_" + sortMangle(vs)
-	x.c.P.declare(name, fmt.Sprintf("(declare-datatypes ((%s 0)) (((mk_%s (dom_%s (Array %s Bool)) (val_%s (Array %s %s)))))", name, name, name, ks, name, ks, vs))
+	x.c.P.declare(name, fmt.Sprintf("(declare-datatypes ((%s 0)) (((mk_%s (dom_%s (Array %s Bool)) (val_%s (Array %s %s))))))", name, name, name, ks, name, ks, vs))
 	return name
 }
 
@@ -569,13 +569,21 @@ func (x *Exec) loopsOf(fn *ssa.Function) map[*ssa.BasicBlock]*LoopInfo {
 			}
 		}
 	}
-	// ordinal by source position of the header (fallback block index)
+	// ordinal by source order: smallest source position of any instruction of the loop
 	var heads []*ssa.BasicBlock
-	for h := range res {
+	minPos := map[*ssa.BasicBlock]token.Pos{}
+	for h, li := range res {
 		heads = append(heads, h)
+		best := token.NoPos
+		for b := range li.Blocks {
+			if p := blockPos(b); p != token.NoPos && (best == token.NoPos || p < best) {
+				best = p
+			}
+		}
+		minPos[h] = best
 	}
 	sort.Slice(heads, func(i, j int) bool {
-		pi, pj := blockPos(heads[i]), blockPos(heads[j])
+		pi, pj := minPos[heads[i]], minPos[heads[j]]
 		if pi != pj {
 			return pi < pj
 		}
@@ -593,8 +601,12 @@ func blockPos(b *ssa.BasicBlock) token.Pos {
 	// and its comparison; for range loops the header holds the index phi.
 	best := token.NoPos
 	for _, in := range b.Instrs {
+		if _, isPhi := in.(*ssa.Phi); isPhi {
+			continue // a phi carries the position of the variable's declaration
+		}
 		p := in.Pos()
 		if d, ok := in.(*ssa.DebugRef); ok {
+			continue
 			p = d.Expr.Pos()
 		}
 		if p != token.NoPos && (best == token.NoPos || p < best) {
